@@ -1,0 +1,15 @@
+//go:build !verif
+
+package verifhook
+
+// Enabled reports whether the instrumentation is compiled in.
+const Enabled = false
+
+// PostSolve is called by constraint systems once a solution has been computed.
+func PostSolve(cs any, solution any) {}
+
+// SolverEvent is called by the level-parallel solver at scheduling points.
+func SolverEvent(solver any, kind int, a, b int) {}
+
+// Gate is called at linearization points of shared mutable state.
+func Gate(site string, obj any, a, b int) {}
